@@ -410,8 +410,48 @@ func (e *Eval) scanCall(name string, c *ssa.CallCommon, args []Val) (Val, bool) 
 			}
 			max, signed = uint64(1)<<uint(size)-1, false
 		} else {
-			// Atoi also takes a sign; only the unsigned digit strings are modelled
-			return Val{}, false
+			// Atoi: an optional sign, then digits; modelled for texts of up to 18
+			// bytes (no overflow of the 64-bit result is possible)
+			if len(s) > 18 {
+				return Val{}, false
+			}
+			if len(s) == 0 {
+				return Val{Kind: KTuple, Tuple: []Val{e.Const(0, 64, true), BoolVal(1)}}, true
+			}
+			k8 := func(c byte) []int { return e.Const(int64(c), 8, false).Bits }
+			plus, minus := e.eq(s[0], k8('+')), e.eq(s[0], k8('-'))
+			sign := m.Or(plus, minus)
+			digit := func(b []int) int {
+				return m.And(m.Not(e.ult(b, k8('0'))), m.Not(e.ult(k8('9'), b)))
+			}
+			// value of s[from:] as digits
+			valFrom := func(from int) (ok int, v []int) {
+				ok = 1
+				if from >= len(s) {
+					return 0, e.Const(0, 64, true).Bits
+				}
+				v = e.Const(0, 64, false).Bits
+				for i := from; i < len(s); i++ {
+					ok = m.And(ok, digit(s[i]))
+					d := e.extend(Val{Kind: KBits, Bits: e.sub(s[i], k8('0'))}, 64)
+					v8 := make([]int, 64)
+					copy(v8[3:], v[:61])
+					v2 := make([]int, 64)
+					copy(v2[1:], v[:63])
+					v = e.add(e.add(v8, v2, 0), d, 0)
+				}
+				return ok, v
+			}
+			ok0, v0 := valFrom(0)
+			ok1, v1 := valFrom(1)
+			okBit := m.Or(m.And(m.Not(sign), ok0), m.And(sign, ok1))
+			neg := e.sub(e.Const(0, 64, true).Bits, v1)
+			out := make([]int, 64)
+			for b := range out {
+				signed := m.Ite(minus, neg[b], v1[b])
+				out[b] = m.And(okBit, m.Ite(sign, signed, v0[b]))
+			}
+			return Val{Kind: KTuple, Tuple: []Val{{Kind: KBits, Bits: out, Signed: true}, BoolVal(m.Not(okBit))}}, true
 		}
 		if len(s) == 0 {
 			return Val{Kind: KTuple, Tuple: []Val{e.Const(0, 64, signed), BoolVal(1)}}, true
